@@ -163,7 +163,7 @@ def strip_generics(p):
         c = p[i]
         if c == "<":
             prev = p[i - 1] if i > 0 else ""
-            if prev == "" or not (prev.isalnum() or prev in "_:"):
+            if prev == "" or not (prev.isalnum() or prev in "_:") or p.startswith("impl ", i + 1):
                 stack.append("Q")
                 if not skip:
                     out.append(c)
